@@ -16,7 +16,7 @@ use neurons::tensor::Tensor;
 
 pub fn meta(_ctx: &Ctx) -> Meta {
     Meta {
-        rule: "ALL (N,B,E) with N in 1..6, B in 1..7 (B=1, B not dividing N, B=N, B>N), E in 1..3, plus a 1024->64->2 network with (N,B) in {(32,32),(40,32),(150,32),(70,64)}, plus (N,B) in {(64,64),(65,64),(65,65),(70,128),(130,65),(130,100),(129,64)} x networks {dense-linear on one-hot inputs (sample i touches column i only), dense+bias tanh -> dense, conv -> dense, dense -> feedback[dense]x2 -> dense} x optimizers {SGD, SGDM, Adam, RMSprop} x objectives {MSE, AE}; pairwise different samples; also two consecutive learn() calls on the same network (16 settings x 4 phase pairs). Oracle: reference trainer (consecutive groups in order, per-sample gradients at the pre-step weights summed, one optimizer step per group with step number = epoch, loss = mean over groups of mean per-sample loss) vs learn()'s final weights and returned loss vector. A state is the weight vector after each optimizer step; non-trivial = runs with >= 2 groups or >= 2 samples per group".into(),
+        rule: "ALL (N,B,E) with N in 1..6, B in 1..7 (B=1, B not dividing N, B=N, B>N), E in 1..3, plus a 1024->64->2 network with (N,B) in {(32,32),(40,32),(150,32),(70,64)}, plus (N,B) in {(64,64),(65,64),(65,65),(70,128),(130,65),(130,100),(129,64)} x networks {dense-linear on one-hot inputs (sample i touches column i only), dense+bias tanh -> dense, conv -> dense, dense -> feedback[dense]x2 -> dense} x optimizers {SGD, SGDM, Adam, RMSprop} x objectives {MSE, AE}; batch sizes usize::MAX, usize::MAX-1, usize::MAX/2+1; pairwise different samples; also two consecutive learn() calls on the same network (16 settings x 4 phase pairs). Oracle: reference trainer (consecutive groups in order, per-sample gradients at the pre-step weights summed, one optimizer step per group with step number = epoch, loss = mean over groups of mean per-sample loss) vs learn()'s final weights and returned loss vector. A state is the weight vector after each optimizer step; non-trivial = runs with >= 2 groups or >= 2 samples per group".into(),
         bound: "N <= 6, B <= 7, E <= 3 (thorough: N <= 9, B <= 10, E <= 4); complete product".into(),
         exhaustive: true,
         assumptions: vec![
@@ -147,7 +147,7 @@ pub fn check(seed: u64, case: &Kv, rep: &mut Report) {
     let ospec = OptSpec::parse(case.get("opt"));
     let o = Obj::parse(case.get("obj"));
     rep.evaluations += 1;
-    let groups = (n + b - 1) / b;
+    let groups = (n - 1) / b + 1;
     if groups >= 2 || b.min(n) >= 2 {
         rep.nontrivial += 1;
     }
@@ -237,7 +237,7 @@ pub fn check(seed: u64, case: &Kv, rep: &mut Report) {
     let mut want_loss: Vec<f64> = Vec::new();
     let nl = net.layers.len();
     for &(b, e) in &phases {
-    let groups = (n + b - 1) / b;
+    let groups = (n - 1) / b + 1;
     for epoch in 1..=e {
         let mut loss_epoch = 0.0f64;
         let mut start = 0;
@@ -404,6 +404,14 @@ pub fn cases(thorough: bool) -> Vec<Kv> {
         for (n, b, e) in [(4usize, 2usize, 2usize), (5, 3, 1), (6, 6, 1)] {
             out.push(Kv::new().put("net", "mlp").put("opt", ospec.name()).put("obj", "MSE").put("n", n).put("b", b).put("e", e).put("data", "identical"));
             out.push(Kv::new().put("net", "mlp").put("opt", ospec.name()).put("obj", "MSE").put("n", n).put("b", b).put("e", e).put("data", "same-input"));
+        }
+    }
+    // "one group": batch sizes at the very end of usize (B > N in its most extreme form)
+    for ospec in [opts()[0], opts()[2]] {
+        for b in [usize::MAX, usize::MAX - 1, usize::MAX / 2 + 1] {
+            for (n, e) in [(3usize, 2usize), (1, 1)] {
+                out.push(Kv::new().put("net", "mlp").put("opt", ospec.name()).put("obj", "MSE").put("n", n).put("b", b).put("e", e));
+            }
         }
     }
     // a wide layer with ordinary batch sizes (32, 64) and 150 samples
